@@ -2,6 +2,7 @@ import Unimock.Lemmas.Actions
 import Unimock.Props.C02
 import Unimock.Props.C17
 import Unimock.Lemmas.Typestate
+import Unimock.Lemmas.LeafRace
 /-!
 # C12 — single-use return values are moved out at most once and never duplicated
 
@@ -292,5 +293,85 @@ example : accepts .someCall [.returns false] = true ∧ accepts .nextCall [.retu
     accepts .someCall [.returns false, .nTimes] = false ∧ accepts .someCall [.returns false, .atLeastTimes] = false ∧
     accepts .eachCall [.returns false] = false ∧ accepts .someCall [.returns false, .once, .then_, .returns false] = false ∧
     accepts .someCall [.returns true, .nTimes, .then_, .returns true, .atLeastTimes] = true := by decide
+
+/-! ## several threads racing for one composite single-use value (Model/LeafRace)
+
+A `Deep<…>` value configured through the single-use path keeps every owned leaf in its own locked slot
+and asks them left to right, stopping at the first empty one. For any number of leaves, any number of
+requesting threads and **any interleaving of their leaf accesses**: -/
+
+open LeafRace in
+theorem reqs_length_step (s : St) (i : Nat) : (step s i).reqs.length = s.reqs.length := by
+  unfold step
+  cases s.reqs[i]? with
+  | none => rfl
+  | some r => simp only; split <;> (try split) <;> simp
+
+open LeafRace in
+theorem reqs_length_run (s : St) (sch : List Nat) : (run s sch).reqs.length = s.reqs.length := by
+  induction sch generalizing s with
+  | nil => rfl
+  | cons i is ih => simp only [run]; rw [ih, reqs_length_step]
+
+open LeafRace in
+/-- **C12, at most one caller receives a composite single-use value**, under every schedule. -/
+theorem C12_composite_race_at_most_one (n k : Nat) (hn : 0 < n) (sch : List Nat) (i j : Nat) (ri rj : Req)
+    (hi : (run (init n k) sch).reqs[i]? = some ri) (hj : (run (init n k) sch).reqs[j]? = some rj)
+    (hri : ri.received n = true) (hrj : rj.received n = true) : i = j := by
+  obtain ⟨_, k', _, _, hc⟩ := inv_run n (init n k) sch (inv_init n k)
+  simp only [Req.received, Bool.and_eq_true, Bool.not_eq_true', decide_eq_true_eq] at hri hrj
+  rcases hc with ⟨_, hall⟩ | ⟨_, w, rw_, _, _, _, hothers⟩
+  · have := (hall ri (List.mem_of_getElem? hi)).1; omega
+  · rcases Nat.lt_or_ge 0 0 with h | _
+    · omega
+    · have hiw : i = w := by
+        rcases Nat.decEq i w with h | h
+        · have := hothers i ri h hi; omega
+        · exact h
+      have hjw : j = w := by
+        rcases Nat.decEq j w with h | h
+        · have := hothers j rj h hj; omega
+        · exact h
+      rw [hiw, hjw]
+
+open LeafRace in
+/-- **C12, the value is not lost in the race**: once every requester has finished, exactly one of them
+    holds the whole value, and every other one failed at the very first leaf without having taken
+    anything — no leaf is taken (and dropped) by a caller that does not receive the value. -/
+theorem C12_composite_race_no_loss (n k : Nat) (hn : 0 < n) (hk : 0 < k) (sch : List Nat)
+    (hall : ∀ r : Req, r ∈ (run (init n k) sch).reqs → r.done n = true) :
+    ∃ (w : Nat) (rw_ : Req), (run (init n k) sch).reqs[w]? = some rw_ ∧ rw_.received n = true ∧
+      ∀ (i : Nat) (r : Req), i ≠ w → (run (init n k) sch).reqs[i]? = some r → r.failed = true ∧ r.pos = 0 := by
+  obtain ⟨_, k', _, _, hc⟩ := inv_run n (init n k) sch (inv_init n k)
+  have hlen : (run (init n k) sch).reqs.length = k := by rw [reqs_length_run]; simp [init]
+  rcases hc with ⟨_, hzero⟩ | ⟨_, w, rw_, hw, hwpos, hwf, hothers⟩
+  · -- nothing taken: then nobody can be done
+    exfalso
+    have h0 : 0 < (run (init n k) sch).reqs.length := by omega
+    have hmem := List.getElem_mem h0
+    have hd := hall _ hmem
+    have hz := hzero _ hmem
+    simp only [Req.done, Bool.or_eq_true, decide_eq_true_eq] at hd
+    rcases hd with hd | hd
+    · rw [hz.2] at hd; cases hd
+    · omega
+  · refine ⟨w, rw_, hw, ?_, ?_⟩
+    · have hd := hall rw_ (List.mem_of_getElem? hw)
+      simp only [Req.done, Bool.or_eq_true, decide_eq_true_eq] at hd
+      simp only [Req.received, Bool.and_eq_true, Bool.not_eq_true', decide_eq_true_eq]
+      rcases hd with hd | hd
+      · rw [hwf] at hd; cases hd
+      · exact ⟨hwf, hd⟩
+    · intro i r hne hr
+      have hp := hothers i r hne hr
+      have hd := hall r (List.mem_of_getElem? hr)
+      simp only [Req.done, Bool.or_eq_true, decide_eq_true_eq] at hd
+      rcases hd with hd | hd
+      · exact ⟨hd, hp⟩
+      · omega
+
+open LeafRace in
+/-- non-vacuity: three leaves, two requesters, a schedule with two context switches -/
+example : (run (init 3 2) [0, 1, 0, 0]).reqs = [⟨3, false⟩, ⟨0, true⟩] := by decide
 
 end Unimock
